@@ -92,7 +92,7 @@ UNIT = Unit(
            subst=[
                ("self.bounds.start.to_usize()", "self.bounds.start", 1),
                ("self.bounds.end.to_usize()", "self.bounds.end", 1),
-               ("self.data.get(new_bounds.clone()).is_some()", "self.data.get_is_some(new_bounds.start..new_bounds.end)", 1),
+               ("self.data.get(new_bounds.clone()).is_some()", "self.data.get_is_some(new_bounds.start..new_bounds.end)", None),
                # T = usize: try_from_range is the identity (its closure builds the struct)
                ("""            try_from_range(&new_bounds).map(|bounds| Self {
                 data: self.data.clone(),
